@@ -164,6 +164,29 @@ func textEnds(v ssa.Value, depth int) (first, last string, ok bool) {
 
 func c05Paren(p *Prog, r *Report) {
 	declI := declInterface(p)
+	openEmitters := map[types.Type]string{} // receiver type -> emitter name, for emitters classified open
+	type passer struct {
+		f     *ssa.Function
+		iface *types.Interface
+		pos   token.Pos
+	}
+	var passers []passer
+	defer func() {
+		// an emitter that hands needs_paren to a child of interface type is closed only if every
+		// implementation of that interface is; an open implementation (even a recorded finding) makes
+		// every delegating position a new place where its text is absorbed or split
+		for _, ps := range passers {
+			var bad []string
+			for t, name := range openEmitters {
+				if types.Implements(t, ps.iface) || types.Implements(types.NewPointer(t), ps.iface) {
+					bad = append(bad, name)
+				}
+			}
+			sort.Strings(bad)
+			r.Check("R05a", FuncName(ps.f)+" delegates needs_paren only to emitters that honour it", ps.pos, len(bad) == 0,
+				fmt.Sprintf("the child may be printed by %v, which ignore needs_paren and are not delimited: in this position their text is absorbed by or split from what follows", bad))
+		}
+	}()
 	for _, f := range coqMethods(p) {
 		r.Func(FuncName(f))
 		if declI != nil && f.Signature.Recv() != nil && types.Implements(f.Signature.Recv().Type(), declI) {
@@ -207,6 +230,14 @@ func c05Paren(p *Prog, r *Report) {
 				// passes the flag to another emitter
 				if (strings.HasSuffix(n, ").Coq") || (x.Call.IsInvoke() && x.Call.Method.Name() == "Coq")) && len(x.Call.Args) > 0 && isFlag(x.Call.Args[len(x.Call.Args)-1]) {
 					classes["passes"] = true
+					// statement-level children (the Expr of a block's Binding) can be any emitter, including the
+					// open statement forms; expression-level children (ReturnExpr.Value, …) are built from
+					// translated expressions only
+					if x.Call.IsInvoke() && strings.Contains(sk(x.Call.Value), ".Bindings[") {
+						if it, ok := x.Call.Value.Type().Underlying().(*types.Interface); ok {
+							passers = append(passers, passer{f, it, instrPos(in)})
+						}
+					}
 					return
 				}
 				if n == coqPkg+".quote" || n == coqPkg+".binder" {
@@ -279,6 +310,9 @@ func c05Paren(p *Prog, r *Report) {
 		}
 		sort.Strings(cl)
 		ok := !classes["open"] && len(classes) > 0
+		if classes["open"] && f.Signature.Recv() != nil {
+			openEmitters[f.Signature.Recv().Type()] = FuncName(f)
+		}
 		r.Check("R05a", key, f.Pos(), ok,
 			fmt.Sprintf("classes %v; %s: the emitter ignores needs_paren and its text is neither delimited nor a single token, so text following it (`;;`, ` in`, an argument position) can be absorbed by or split from it", cl, strings.Join(notes, "; ")))
 		if ok {
